@@ -664,7 +664,13 @@ def doc_openers_are_recognised_as_the_lexer_does(ctx, rid):
         r.undecidable(rid, "comment::comment_style not found")
         return
     try:
-        paths = explore(f, pure=lambda c: True, max_paths=20000)
+        # helpers of the module that hold some of the prefix tests (`has_triple_slash_opener(orig)`) are looked into
+        def opaque(c):
+            h = p.fns.get(c.name)
+            return not (h is not None and h.id.startswith("rustfmt_nightly::comment::") and h.id != f.id
+                        and "bool" == h.locals[0] and any(x.name.endswith("str>::starts_with") for x in h.calls())
+                        and not h.id.endswith("is_custom_comment"))
+        paths = explore(f, pure=opaque, max_paths=20000, program=p, inline="auto")
     except TooManyPaths as e:
         r.undecidable(rid, str(e))
         return
